@@ -145,7 +145,7 @@ def _capture_fold(ctx):
             rep.undecided('R1.0', key, 'step extraction inexact: %s' % notes)
             continue
         rep.count('paths of one capture step (%s)' % key, len(outs),
-                  floor=3)
+                  floor=1)
         bad = None
         n_cases = 0
         try:
